@@ -55,7 +55,14 @@ def cases(tier):
     objs = [([1, 0, 0], 0, "minimize"), ([0, 1, 0], 10, "minimize"), ([1, 1, 0], 0, "maximize"), ([0, 0, -2], 5, "max"), ([2, 0, 1], 0, "min"), ([0, 3, 0], -4, "minimize")]
     for seq in itertools.permutations(range(len(objs)), 2 if tier == "quick" else 3):
         yield dict(kind="objective-history", objectives=[list(objs[i]) for i in seq])
-    for variant in ("mapping", "pairs", "subset", "binary"):
+    # objectives in which a column occurs in several terms (the coefficients add up), alone and replacing / replaced by another objective
+    rep = [([[0, 1], [1, 1.5], [0, 1]], 0, "minimize"), ([[2, -1], [2, -1], [1, 2]], 3, "maximize"), ([[0, 2], [0, -2], [1, 1]], 0, "min")]
+    for r in rep:
+        yield dict(kind="objective-history", objectives=[[None, r[1], r[2], r[0]]])
+        for o in objs[:3]:
+            yield dict(kind="objective-history", objectives=[list(o), [None, r[1], r[2], r[0]]])
+            yield dict(kind="objective-history", objectives=[[None, r[1], r[2], r[0]], list(o)])
+    for variant in ("mapping", "pairs", "subset", "binary", "permuted-mapping", "permuted-pairs", "repeated-variable", "interior-swap"):
         yield dict(kind="get-values", variant=variant)
     for probe in ("changeColsBounds", "getCols-order", "addVariables-index-order", "allVariableValues-by-column", "infeasible-status-name"):
         yield dict(kind="highspy-conformance", probe=probe)
@@ -97,8 +104,13 @@ def _objective_history(case):
     box = [(0.0, 3.0), (1.0, 4.0), (-2.0, 2.0)]
     vs = s.add_variables([0, 1, 2], "v", lb=[b[0] for b in box], ub=[b[1] for b in box], var_type="continuous")
     last = None
-    for coefs, const, sense in case["objectives"]:
-        expr = sum((c * vs[i] for i, c in enumerate(coefs) if c), start=0 * vs[0]) + const
+    for ob in case["objectives"]:
+        coefs, const, sense = ob[0], ob[1], ob[2]
+        if len(ob) > 3:            # explicit term list [(column, coefficient), ...] with repeated columns
+            expr = sum((c * vs[i] for i, c in ob[3]), start=0 * vs[ob[3][0][0]]) + const
+            coefs = [sum(c for i, c in ob[3] if i == col) for col in range(3)]
+        else:
+            expr = sum((c * vs[i] for i, c in enumerate(coefs) if c), start=0 * vs[0]) + const
         s.set_objective(expr, sense=sense)
         last = (coefs, const, sense)
     s.optimize()
@@ -128,6 +140,18 @@ def _get_values(case):
     elif v == "subset":
         got = s.get_values({k: vs[k] for k in ("c",)})
         want = {"c": 7}
+    elif v == "permuted-mapping":            # first and last column span exactly len(request) columns, the interior is permuted
+        got = s.get_values({k: vs[k] for k in ("a", "c", "b", "d")})
+        want = fixed
+    elif v == "permuted-pairs":
+        got = s.get_values([(k, vs[k]) for k in ("b", "d", "a", "c")])
+        want = fixed
+    elif v == "repeated-variable":           # keys chosen by the caller: two keys may name the same variable
+        got = s.get_values([("u", vs["b"]), ("v", vs["b"]), ("w", vs["d"])])
+        want = {"u": 0, "v": 0, "w": 1}
+    elif v == "interior-swap":
+        got = s.get_values({("k", i): vs[k] for i, k in enumerate(("b", "c", "a", "d"))})
+        want = {("k", 0): 0, ("k", 1): 7, ("k", 2): 1, ("k", 3): 1}
     else:
         got = s.get_values({k: vs[k] for k in ("a", "b", "d")}, binary_values=True)
         want = {"a": 1, "b": 0, "d": 1}
